@@ -261,8 +261,13 @@ class MempoolEngine:
     async def bring_up(self, loop, dbdir):
         c, w, rng = self.case, self.world, self.rng
         if c.get('colls'):
-            w.use_collisions(c['colls'], rng)
+            if c.get('coll_kind') == 'diff':
+                w.use_collisions(c['colls'], rng, kind='diff', reserve=True)
+                w.coll_prob = 1.0
+            else:
+                w.use_collisions(c['colls'], rng)
         grow_chain(w, c.get('n0', 12) + 1, rng, big=c.get('big_block'))
+        w.coll_prob = 0.5
         self.install()
         srv = harness.Server(w, dbdir, flushvec=c.get('flushvec'), prefetch=c.get('prefetch', 100), txindex=c.get('txindex', False),
                              env_extra={'REORG_LIMIT': c.get('reorg_limit', 5)})
